@@ -8,7 +8,8 @@
    logical clock. `reachable cfg s`: s is reached from the empty registry by ANY sequence of
    events (begin ro/rw with any deadline, reads/writes/commit/rollback by handle or on the kept
    object, by any client in any order, clock ticks, the three cleanups, injected ApplyBatch
-   failures); the only restriction (`ev_ok`) is that nobody calls registry.Remove on a live
+   failures, and the one-shot calls of the service — BatchWrite — that begin, use and end a
+   read-write transaction of their own inside one call); the only restriction (`ev_ok`) is that nobody calls registry.Remove on a live
    transaction (the service never does). *)
 From Coq Require Import List NArith Bool.
 From KV Require Import Registry RegistryProofs.
@@ -97,3 +98,43 @@ Theorem C17_shipped_cleanup_frees : forall svc peer s, reachable (shipped_config
   forall c ro d, In (OBegin c ROk) (snd (step cfg s2 (EBegin c ro d))).
 Proof. exact shipped_cleanup_frees. Qed.
 Print Assumptions C17_shipped_cleanup_frees.
+
+(* the transactions the service begins ITSELF inside one call (KevoServiceServer.BatchWrite:
+   begin read-write, validate and buffer, commit; any rejection rolls back in a deferred function):
+   when the call has returned — accepted, rejected or failed — the lock, the registry, every
+   transaction object, every waiting Begin and every client's handle are what they were, so an
+   observer sees the same lock state and the same number of registered transactions *)
+Theorem C17_service_call_releases : forall cfg s c valid k v,
+  let s' := fst (step cfg s (EOneShot c valid k v)) in
+  (lk s' = lk s /\ reg s' = reg s /\ objs s' = objs s /\ pends s' = pends s /\ handles s' = handles s) /\
+  (lock_state s' = lock_state s /\ reg_size s' = reg_size s).
+Proof. exact oneshot_releases_observed. Qed.
+Print Assumptions C17_service_call_releases.
+
+(* a rejected call (invalid key size, value too large, unknown operation type) changes nothing *)
+Theorem C17_rejected_service_call_no_effect : forall cfg s c k v,
+  fst (step cfg s (EOneShot c false k v)) = s.
+Proof. exact oneshot_rejected_no_effect. Qed.
+Print Assumptions C17_rejected_service_call_no_effect.
+
+(* an accepted call on a free database is applied and acknowledged *)
+Theorem C17_service_call_applied : forall cfg s c k v,
+  lock_state s = LFree -> fail_next s = false ->
+  db_get k (db (fst (step cfg s (EOneShot c true k v)))) = v /\
+  snd (step cfg s (EOneShot c true k v)) = [ORes c ROk].
+Proof. exact oneshot_applied. Qed.
+Print Assumptions C17_service_call_applied.
+
+(* and it touches no other key, however it was answered *)
+Theorem C17_service_call_other_keys : forall cfg s c valid k v k', k' <> k ->
+  db_get k' (db (fst (step cfg s (EOneShot c valid k v)))) = db_get k' (db s).
+Proof. exact oneshot_other_keys. Qed.
+Print Assumptions C17_service_call_other_keys.
+
+(* with every client finished, the database is free after a service call as before it *)
+Theorem C17_service_call_no_leak : forall cfg s c valid k v, reachable cfg s -> all_finished s ->
+  let s' := fst (step cfg s (EOneShot c valid k v)) in
+  lock_ids (lk s') = [] /\ pends s' = [] /\
+  forall c' ro d, In (OBegin c' ROk) (snd (step cfg s' (EBegin c' ro d))).
+Proof. exact oneshot_no_leak. Qed.
+Print Assumptions C17_service_call_no_leak.
